@@ -313,4 +313,169 @@ pub mod native {
         }
         fn covered(&mut self, _name: &'static str) {}
     }
+
+    /// Exhaustive odometer source: every draw is one digit whose domain is the whole type
+    /// when that is small (bool, u8, below(n), u16, char) and a fixed list of structured
+    /// values otherwise (u32 / u64 / usize: 0, small integers, single bits, all-ones, the 52
+    /// card words, flagged and one-bit-corrupted card words). `advance()` steps to the next
+    /// combination; the sweep is complete when it returns false.
+    pub struct SweepSrc {
+        pub digits: Vec<(u64, u64)>, // (current index, domain size)
+        pub pos: usize,
+        pub rec: Vec<Vec<u8>>,
+        pub failed: Vec<&'static str>,
+        pub rejected: bool,
+        pub words32: Vec<u32>,
+        pub words64: Vec<u64>,
+    }
+
+    impl SweepSrc {
+        pub fn new() -> Self {
+            let mut w32: Vec<u32> = Vec::new();
+            for v in 0..8u32 {
+                w32.push(v);
+            }
+            for b in 0..32 {
+                w32.push(1u32 << b);
+                w32.push((1u32 << b).wrapping_sub(1));
+            }
+            w32.push(u32::MAX);
+            w32.push(7462);
+            w32.push(7463);
+            let primes = [2u32, 3, 5, 7, 11, 13, 17, 19, 23, 29, 31, 37, 41];
+            for r in 0..13u32 {
+                for su in 0..4u32 {
+                    let c = primes[r as usize] | (r << 8) | (1 << (12 + su)) | (1 << (16 + r));
+                    w32.push(c);
+                    w32.push(c | (1 << 29));
+                    w32.push(c | (1 << 31));
+                    w32.push(c ^ 1);
+                    w32.push(c ^ (1 << 12));
+                }
+            }
+            w32.sort_unstable();
+            w32.dedup();
+            let mut w64: Vec<u64> = Vec::new();
+            for v in 0..4u64 {
+                w64.push(v);
+            }
+            for b in 0..64 {
+                w64.push(1u64 << b);
+                w64.push((1u64 << b).wrapping_sub(1));
+                w64.push((1u64 << b) | 1);
+                w64.push((1u64 << b) | (1u64 << 51));
+                w64.push((1u64 << b) | (1u64 << 52));
+            }
+            w64.push(u64::MAX);
+            w64.push(47);
+            w64.push(48);
+            w64.push(104553157);
+            w64.push(104553158);
+            w64.push(115856201);
+            w64.sort_unstable();
+            w64.dedup();
+            SweepSrc { digits: Vec::new(), pos: 0, rec: Vec::new(), failed: Vec::new(), rejected: false, words32: w32, words64: w64 }
+        }
+        pub fn reset(&mut self) {
+            self.pos = 0;
+            self.rec.clear();
+            self.failed.clear();
+            self.rejected = false;
+        }
+        /// total number of combinations with the digits seen so far
+        pub fn size(&self) -> f64 {
+            self.digits.iter().map(|d| d.1 as f64).product()
+        }
+        /// next combination; false when the odometer wrapped around
+        pub fn advance(&mut self) -> bool {
+            // digits drawn later vary fastest
+            let mut i = self.digits.len();
+            while i > 0 {
+                i -= 1;
+                self.digits[i].0 += 1;
+                if self.digits[i].0 < self.digits[i].1 {
+                    return true;
+                }
+                self.digits[i].0 = 0;
+            }
+            false
+        }
+        fn digit(&mut self, domain: u64) -> u64 {
+            if self.pos >= self.digits.len() {
+                self.digits.push((0, domain));
+            }
+            let d = &mut self.digits[self.pos];
+            if d.1 != domain {
+                // data-dependent draw order: keep the first domain seen, clamp
+                d.1 = domain.max(d.1);
+            }
+            let v = d.0.min(domain - 1);
+            self.pos += 1;
+            v
+        }
+        fn push(&mut self, v: u64, n: usize) -> u64 {
+            self.rec.push(v.to_le_bytes()[..n].to_vec());
+            v
+        }
+    }
+
+    impl Src for SweepSrc {
+        fn u8(&mut self) -> u8 {
+            let v = self.digit(256);
+            self.push(v, 1) as u8
+        }
+        fn u16(&mut self) -> u16 {
+            let v = self.digit(65536);
+            self.push(v, 2) as u16
+        }
+        fn u32(&mut self) -> u32 {
+            let n = self.words32.len() as u64;
+            let i = self.digit(n);
+            let v = self.words32[i as usize] as u64;
+            self.push(v, 4) as u32
+        }
+        fn u64(&mut self) -> u64 {
+            let n = self.words64.len() as u64;
+            let i = self.digit(n);
+            let v = self.words64[i as usize];
+            self.push(v, 8)
+        }
+        fn usize(&mut self) -> usize {
+            let n = self.words64.len() as u64;
+            let i = self.digit(n);
+            let v = self.words64[i as usize];
+            self.push(v, 8) as usize
+        }
+        fn bool(&mut self) -> bool {
+            let v = self.digit(2);
+            self.push(v, 1) != 0
+        }
+        fn char(&mut self) -> char {
+            let v = self.digit(0x11_0000);
+            match char::from_u32(v as u32) {
+                Some(c) => {
+                    self.push(v, 4);
+                    c
+                }
+                None => {
+                    self.push(0, 4);
+                    self.rejected = true;
+                    '\0'
+                }
+            }
+        }
+        fn below(&mut self, n: u8) -> u8 {
+            let v = self.digit(n as u64);
+            self.push(v, 1) as u8
+        }
+        fn fail(&mut self, name: &'static str) {
+            if !self.rejected {
+                self.failed.push(name);
+            }
+        }
+        fn reject(&mut self) {
+            self.rejected = true;
+        }
+        fn covered(&mut self, _name: &'static str) {}
+    }
 }
